@@ -15,6 +15,7 @@ import CookModel.Lemmas.LooseFront
 import CookModel.Lemmas.TableFacts
 import CookModel.Lemmas.AdvQtyComment
 import CookModel.Lemmas.TextModeSwitch
+import CookModel.Lemmas.InsertWF
 /-
   C17  Line endings, comments and blank space do not change the recipe.
 
@@ -2347,5 +2348,109 @@ theorem C17_trailing_comment_on_single_line_blocks_same_recipe_real {α : Type} 
   C17_trailing_comment_on_single_line_blocks_same_recipe ws env (hsp := hreal ▸ tbl_uws_sp) pre' pre docF doc h hclean hpre'
     hok hseps hw hfm
 -- ===== end w6c17docwf (part 2) =====
+
+-- ===== w6c17docwf (part 3): well-formedness of the TRANSFORMED document derived =====
+/-- **A step with filler inserted in a text run is a block of the grammar again.**  `DocItem.ok` of a
+    step = every segment within the grammar, every component FOLLOWED as the grammar demands (a braces
+    component without note and a timer not by `(`; a single-word component by no `{` before the next
+    marker ANYWHERE in the rest of the step and by no word / `(`), first token not `>>`, `=`, `>`, and
+    the shape of a multi-line block (no blank line, no line starting with `>>` or `=`).  All of it is
+    inherited when tokens `F` that are white space / block comments / line comments (`IsFiller`) are
+    inserted anywhere in a text run — also the conditions that look at the whole rest of the step
+    (obstacle (iii) of the audit): filler shows neither `{`, `(`, a marker, a word nor a line end. -/
+theorem C17_step_with_filler_in_text_wellformed (cs : CharSpec) (e : Ext) (S1 S2 : List SegX) (l1 F l2 : List Tok)
+    (hF : IsFiller F) (h : (DocItem.step (S1 ++ SegX.text (l1 ++ l2) :: S2)).ok cs e = true) :
+    (DocItem.step (S1 ++ SegX.text (l1 ++ F ++ l2) :: S2)).ok cs e = true :=
+  w6d_step_ok_inText cs e S1 S2 l1 F l2 hF h
+
+/-- … and with filler as a text run of its own (behind a component or at the start of the step, in
+    front of a component or at the end of the step: `@a{} -- c⏎`, `@a{} [- c -]@b{}`), when the filler
+    shows something (holds a blank) and is not placed directly behind a text run (that insertion is
+    the other form, at the end of that run — the case the audit pointed at, two text runs next to
+    each other, is excluded by this condition on the insertion point). -/
+theorem C17_step_with_filler_run_wellformed (cs : CharSpec) (e : Ext) (S1 S2 : List SegX) (F : List Tok)
+    (hF : IsFiller F) (hvis : F.flatMap vis ≠ []) (hS2 : ∀ s, S2.head? = some s → s.isText = false)
+    (hS1 : ∀ s, S1.getLast? = some s → s.isText = false) (h : (DocItem.step (S1 ++ S2)).ok cs e = true) :
+    (DocItem.step (S1 ++ SegX.text F :: S2)).ok cs e = true :=
+  w6d_step_ok_newText cs e S1 S2 F hF hvis hS2 hS1 h
+
+/-- **`DocWF` of the transformed document from `DocWF` of the original** (partial, see MISSING), filler
+    inside a text run of one step of the document `D1 ++ step :: D2`.  Derived: leading blank lines,
+    every block within the grammar (theorem above), plain definitions, plain metadata, the extension
+    conditions of all OTHER segments, the separators.  MISSING (still asked of the transformed text):
+    (a) its spelling — `C17_well_spelled_insertion` reduces it to the filler and its two neighbours;
+    (b) that it has no front-matter fence (obstacle (ii): a line-level argument; a block comment may
+    span lines, so "no line becomes `---`" is a condition on the filler, not a consequence);
+    (c) under INLINE_QUANTITIES only: that the inline-quantity scan finds nothing in the changed run
+    (obstacle (i); void without the extension, `C17_insertion_in_text_same_recipe_inline_off_partial`). -/
+theorem C17_insertion_in_text_wellformed_partial {α : Type} [Arith α] (env : Env) (pre : List Tok)
+    (D1 D2 : List (DocItem × List Tok)) (sep : List Tok) (S1 S2 : List SegX) (l1 F l2 : List Tok) (hF : IsFiller F)
+    (h : DocWF α env pre (D1 ++ (DocItem.step (S1 ++ SegX.text (l1 ++ l2) :: S2), sep) :: D2))
+    (hext : (SegX.text (l1 ++ F ++ l2)).extOK α env)
+    (hw : WellSpelled env.cs (pre ++ docSpec (D1 ++ (DocItem.step (S1 ++ SegX.text (l1 ++ F ++ l2) :: S2), sep) :: D2)))
+    (hfm : parseFrontmatter env.cs
+      (render (pre ++ docSpec (D1 ++ (DocItem.step (S1 ++ SegX.text (l1 ++ F ++ l2) :: S2), sep) :: D2))) = none) :
+    DocWF α env pre (D1 ++ (DocItem.step (S1 ++ SegX.text (l1 ++ F ++ l2) :: S2), sep) :: D2) :=
+  w6d_docWF_inText env pre D1 D2 sep S1 S2 l1 F l2 hF h hext hw hfm
+
+/-- the same for filler as a text run of its own -/
+theorem C17_insertion_run_wellformed_partial {α : Type} [Arith α] (env : Env) (pre : List Tok)
+    (D1 D2 : List (DocItem × List Tok)) (sep : List Tok) (S1 S2 : List SegX) (F : List Tok) (hF : IsFiller F)
+    (hvis : F.flatMap vis ≠ []) (hS2 : ∀ s, S2.head? = some s → s.isText = false)
+    (hS1 : ∀ s, S1.getLast? = some s → s.isText = false)
+    (h : DocWF α env pre (D1 ++ (DocItem.step (S1 ++ S2), sep) :: D2))
+    (hext : (SegX.text F).extOK α env)
+    (hw : WellSpelled env.cs (pre ++ docSpec (D1 ++ (DocItem.step (S1 ++ SegX.text F :: S2), sep) :: D2)))
+    (hfm : parseFrontmatter env.cs
+      (render (pre ++ docSpec (D1 ++ (DocItem.step (S1 ++ SegX.text F :: S2), sep) :: D2))) = none) :
+    DocWF α env pre (D1 ++ (DocItem.step (S1 ++ SegX.text F :: S2), sep) :: D2) :=
+  w6d_docWF_newText env pre D1 D2 sep S1 S2 F hF hvis hS2 hS1 h hext hw hfm
+
+/-- **Trailing comment / trailing blanks / block comment between words of step text: the same recipe,
+    from the well-formedness of the ORIGINAL alone, INLINE_QUANTITIES off** (the canonical parser; partial:
+    spelling and "no fence" of the transformed text are still hypotheses, see above).  `F`: white space
+    / comment tokens showing only white space, next to white space or at the end of the run; the run is
+    followed by a component or the end of the step. -/
+theorem C17_insertion_in_text_same_recipe_inline_off_partial {α : Type} [Arith α] (env : Env) (ws : Char → Bool)
+    (hoff : env.ext.has Gen.EXT_INLINE_QUANTITIES = false) (pre : List Tok)
+    (D1 D2 : List (DocItem × List Tok)) (sep : List Tok) (S1 S2 : List SegX) (l1 F l2 : List Tok) (hF : IsFiller F)
+    (hvis : ∀ c ∈ F.flatMap vis, ws c = true) (hadj : BlankAdj ws (l1.flatMap vis) (l2.flatMap vis))
+    (hS2 : ∀ s, S2.head? = some s → s.isText = false)
+    (h : DocWF α env pre (D1 ++ (DocItem.step (S1 ++ SegX.text (l1 ++ l2) :: S2), sep) :: D2))
+    (hw : WellSpelled env.cs (pre ++ docSpec (D1 ++ (DocItem.step (S1 ++ SegX.text (l1 ++ F ++ l2) :: S2), sep) :: D2)))
+    (hfm : parseFrontmatter env.cs
+      (render (pre ++ docSpec (D1 ++ (DocItem.step (S1 ++ SegX.text (l1 ++ F ++ l2) :: S2), sep) :: D2))) = none) :
+    SameRecipe ws
+      (parseRecipe (α := α) env
+        (render (pre ++ docSpec (D1 ++ (DocItem.step (S1 ++ SegX.text (l1 ++ F ++ l2) :: S2), sep) :: D2))))
+      (parseRecipe (α := α) env
+        (render (pre ++ docSpec (D1 ++ (DocItem.step (S1 ++ SegX.text (l1 ++ l2) :: S2), sep) :: D2)))) := by
+  refine C17_insertion_same_recipe env ws pre pre _ _
+    (w6d_docWF_inText env pre D1 D2 sep S1 S2 l1 F l2 hF h (w6d_text_extOK_off env hoff _) hw hfm) h ?_
+  simp only [List.map_append, List.map_cons]
+  exact C17_insertion_in_one_step ws _ _ _ _ (SegsIns.inText S1 S2 l1 F l2 hvis hadj hS2)
+
+/-! non-vacuity: `Mix [- c -] well⏎` against `Mix well⏎` under the toy environment (no extension): the
+    theorem applies with the well-formedness of `Mix well⏎` only -/
+example : SameRecipe (α := Rat) (fun c => c = ' ')
+    (parseRecipe C17_toyEnv "Mix [- c -] well\n".toList) (parseRecipe C17_toyEnv "Mix well\n".toList) := by
+  have h := C17_insertion_in_text_same_recipe_inline_off_partial (α := Rat) C17_toyEnv (fun c => c = ' ') (by decide) []
+    [] [] [tk .newline ['\n']] [] [] [tk .word "Mix".toList, tk .ws [' ']]
+    [tk .blockComment "[- c -]".toList, tk .ws [' ']] [tk .word "well".toList]
+    (by intro t ht; simp only [List.mem_cons, List.not_mem_nil, or_false] at ht; rcases ht with rfl | rfl <;> rfl)
+    (by decide) (Or.inr (Or.inr ⟨"Mix".toList, ' ', by decide, by decide⟩)) (by intro s hs; cases hs)
+    (C17_exDocWF _ (by decide) (by
+      intro d hd
+      simp only [List.nil_append, List.mem_cons, List.not_mem_nil, or_false] at hd
+      subst hd; exact ⟨_, rfl⟩))
+    (by decide) (by decide)
+  have e1 : render ([] ++ docSpec ([] ++ (DocItem.step ([] ++ SegX.text ([tk .word "Mix".toList, tk .ws [' ']] ++
+      [tk .blockComment "[- c -]".toList, tk .ws [' ']] ++ [tk .word "well".toList]) :: []), [tk .newline ['\n']]) :: [])) =
+      "Mix [- c -] well\n".toList := by decide
+  have e2 : render ([] ++ docSpec ([] ++ (DocItem.step ([] ++ SegX.text ([tk .word "Mix".toList, tk .ws [' ']] ++
+      [tk .word "well".toList]) :: []), [tk .newline ['\n']]) :: [])) = "Mix well\n".toList := by decide
+  rw [e1, e2] at h
+  exact h
+-- ===== end w6c17docwf (part 3) =====
 
 end Cook
